@@ -10,6 +10,7 @@ import (
 
 	"github.com/kklash/bitcoinlib/base58check"
 	"github.com/kklash/bitcoinlib/bip32"
+	"github.com/kklash/bitcoinlib/bip38"
 	"github.com/kklash/bitcoinlib/ecc"
 	"github.com/kklash/bitcoinlib/wif"
 )
@@ -157,6 +158,185 @@ func init() {
 		}
 		return fmt.Sprintf("ok %s %s %s %d %d %d", hx(k), hx(cc), hx(fp), d, i, v), direct
 	})
+}
+
+func init() {
+	reg("bip38.enc", Full, func(a []string) (string, []string) {
+		key, pw := unhx(a[0]), strArg(a[1])
+		c, ok := flagArg(a[2])
+		if !ok {
+			return "bad-op", nil
+		}
+		s, err := bip38.Encrypt(key, pw, c)
+		if err != nil {
+			return "err", nil
+		}
+		var direct []string
+		k2, c2, derr := bip38.Decrypt(s, pw)
+		if derr != nil || !bytes.Equal(k2, key) || c2 != c {
+			direct = append(direct, "bip38.Decrypt(Encrypt(key, pw), pw) != key")
+		}
+		return "ok " + sx(s), direct
+	})
+	reg("bip38.dec", Full, func(a []string) (string, []string) {
+		k, c, err := bip38.Decrypt(strArg(a[0]), strArg(a[1]))
+		if err != nil {
+			return "err", nil
+		}
+		var direct []string
+		// an accepted string must carry a canonical flag byte (BIP38 reserves the other bits) that
+		// agrees with the returned compression flag
+		if p, derr := base58check.Decode(strArg(a[0])); derr == nil && len(p) == 39 {
+			canonical := (p[1] == 0x42 && p[2]|0x20 == 0xe0) || (p[1] == 0x43 && p[2]&0xdb == 0)
+			if !canonical {
+				direct = append(direct, fmt.Sprintf("Decrypt accepted the non-canonical flag byte %02x", p[2]))
+			}
+			if (p[2]&0x20 != 0) != c {
+				direct = append(direct, "returned compression flag differs from the flag byte")
+			}
+		}
+		return fmt.Sprintf("ok %s %d", hx(k), b2i(c)), direct
+	})
+	reg("bip38.icode", Full, func(a []string) (string, []string) {
+		s, err := bip38.GenerateIntermediateCode(bytes.NewReader(unhx(a[0])), strArg(a[1]))
+		if err != nil {
+			return "err", nil
+		}
+		return "ok " + sx(s), nil
+	})
+	reg("bip38.icodelot", Full, func(a []string) (string, []string) {
+		lot, e1 := strconv.ParseUint(a[2], 10, 32)
+		seq, e2 := strconv.ParseUint(a[3], 10, 32)
+		if e1 != nil || e2 != nil {
+			return "bad-op", nil
+		}
+		s, err := bip38.GenerateIntermediateCodeWithLotSequence(bytes.NewReader(unhx(a[0])), strArg(a[1]), uint32(lot), uint32(seq))
+		if err != nil {
+			return "err", nil
+		}
+		return "ok " + sx(s), nil
+	})
+	reg("bip38.ecenc", Full, func(a []string) (string, []string) {
+		c, ok := flagArg(a[2])
+		if !ok {
+			return "bad-op", nil
+		}
+		s, err := bip38.EncryptIntermediateCode(bytes.NewReader(unhx(a[0])), strArg(a[1]), c)
+		if err != nil {
+			return "err", nil
+		}
+		return "ok " + sx(s), nil
+	})
+}
+
+// reflag re-encodes a BIP38 string with another flag byte (valid checksum)
+func reflag(s string, flag byte) string {
+	p, err := base58check.Decode(s)
+	if err != nil || len(p) != 39 {
+		return s
+	}
+	q := append([]byte{}, p...)
+	q[2] = flag
+	return base58check.Encode(q)
+}
+
+// runBip38 is the BIP38 part of C10. scrypt (N=16384, r=8, p=8) dominates the cost on both sides, so
+// the quick tier runs about ten derivations; flag-byte and prefix mutations are rejected before the
+// key derivation and cost nothing.
+func (r *Runner) runBip38() {
+	passwords := []string{"TestingOneTwoThree", "", "\u03d2\u0301\u0000\U00010400\U0001f4a9", "a very long passphrase " + string(bytes.Repeat([]byte("x"), 80))}
+	var samples []struct{ s, pw string }
+	for i := 0; i < r.N(3, 120); i++ {
+		k := r.privKey()
+		pw := passwords[i%len(passwords)]
+		c := i%2 == 0
+		r.Do("bip38.enc", []string{hx(k), sx(pw), strconv.Itoa(b2i(c))}, "bip38-enc", true, "")
+		s, err := bip38.Encrypt(k, pw, c)
+		if err != nil {
+			continue
+		}
+		samples = append(samples, struct{ s, pw string }{s, pw})
+		if i < r.N(1, 60) {
+			r.Do("bip38.dec", []string{sx(s), sx(pw)}, "bip38-dec", true, "")
+		}
+		if i == 0 || (r.thorough && i%5 == 0) {
+			r.Do("bip38.dec", []string{sx(s), sx(pw + "x")}, "bip38-dec-wrong-password", true, "")
+			// altered ciphertext with a recomputed checksum
+			p, _ := base58check.Decode(s)
+			p[10+r.rng.Intn(29)] ^= 1 << uint(r.rng.Intn(8))
+			r.Do("bip38.dec", []string{sx(base58check.Encode(p)), sx(pw)}, "bip38-dec-altered", true, "")
+		}
+	}
+	// wrong key lengths (no derivation)
+	for _, n := range []int{0, 1, 16, 31, 33, 64} {
+		r.Do("bip38.enc", []string{hx(r.bytesN(n)), sx("pw"), "1"}, "bip38-enc-length", false, "")
+	}
+	// every flag byte and prefix mutation of a valid string: all but the canonical flags must be
+	// rejected (D22); the few that pass cost one derivation each
+	if len(samples) > 0 {
+		sm := samples[0]
+		p, _ := base58check.Decode(sm.s)
+		flags := []int{0xe1, 0xe8, 0xf0, 0xe4, 0x60, 0xa0, 0xc4, 0xc1, 0x00, 0x20, 0x04, 0x24, 0x40, 0x80, 0xff}
+		if r.thorough {
+			flags = flags[:0]
+			for f := 0; f < 256; f++ {
+				flags = append(flags, f)
+			}
+		}
+		for _, f := range flags {
+			if byte(f) == p[2] || byte(f) == p[2]^0x20 {
+				continue // the two canonical flags decrypt: covered above
+			}
+			if f&0xdb == 0 && !r.thorough {
+				continue // canonical EC flags run two derivations; thorough tier only
+			}
+			r.Do("bip38.dec", []string{sx(reflag(sm.s, byte(f))), sx(sm.pw)}, "bip38-dec-flag", true, fmt.Sprintf("flag %02x", f))
+		}
+		for _, m := range [][2]int{{0, 0}, {0, 2}, {1, 0x41}, {1, 0x44}, {1, 0}} {
+			q := append([]byte{}, p...)
+			q[m[0]] = byte(m[1])
+			r.Do("bip38.dec", []string{sx(base58check.Encode(q)), sx(sm.pw)}, "bip38-dec-prefix", true, "")
+		}
+		for _, n := range []int{38, 40, 0, 4} {
+			r.Do("bip38.dec", []string{sx(base58check.Encode(r.bytesN(n))), sx(sm.pw)}, "bip38-dec-length", true, "")
+		}
+		r.Do("bip38.dec", []string{sx(r.mutateStr(sm.s, b58Alphabet)), sx(sm.pw)}, "bip38-dec-mutated", true, "")
+	}
+	// EC-multiply: intermediate code, encryption with it, decryption (3 big + 2 small derivations)
+	for i := 0; i < r.N(1, 40); i++ {
+		pw := passwords[i%len(passwords)]
+		var code string
+		var err error
+		if i%2 == 0 {
+			rnd := r.bytesN(8)
+			r.Do("bip38.icode", []string{hx(rnd), sx(pw)}, "bip38-icode", true, "")
+			code, err = bip38.GenerateIntermediateCode(bytes.NewReader(rnd), pw)
+		} else {
+			rnd := r.bytesN(4)
+			lot, seq := r.rng.Intn(1<<20), r.rng.Intn(1<<12)
+			r.Do("bip38.icodelot", []string{hx(rnd), sx(pw), strconv.Itoa(lot), strconv.Itoa(seq)}, "bip38-icode-lot", true, "")
+			code, err = bip38.GenerateIntermediateCodeWithLotSequence(bytes.NewReader(rnd), pw, uint32(lot), uint32(seq))
+		}
+		if err != nil {
+			continue
+		}
+		seed := r.bytesN(24)
+		c := i%2 == 1
+		r.Do("bip38.ecenc", []string{hx(seed), sx(code), strconv.Itoa(b2i(c))}, "bip38-ecenc", true, "")
+		enc, err := bip38.EncryptIntermediateCode(bytes.NewReader(seed), code, c)
+		if err == nil {
+			r.Do("bip38.dec", []string{sx(enc), sx(pw)}, "bip38-dec-ec", true, "")
+			r.Do("bip38.dec", []string{sx(reflag(enc, 0xc0)), sx(pw)}, "bip38-dec-flag", true, "EC key with a non-EC flag")
+		}
+	}
+	// cheap refusals: lot / sequence out of range, short random input, damaged intermediate codes
+	r.Do("bip38.icodelot", []string{hx(r.bytesN(4)), sx("pw"), "1048576", "1"}, "bip38-icode-range", false, "")
+	r.Do("bip38.icodelot", []string{hx(r.bytesN(4)), sx("pw"), "1", "4096"}, "bip38-icode-range", false, "")
+	r.Do("bip38.icodelot", []string{hx(r.bytesN(3)), sx("pw"), "1", "1"}, "bip38-icode-range", false, "")
+	r.Do("bip38.icode", []string{hx(r.bytesN(7)), sx("pw")}, "bip38-icode-range", false, "")
+	for _, n := range []int{48, 50, 49} {
+		r.Do("bip38.ecenc", []string{hx(r.bytesN(24)), sx(base58check.Encode(r.bytesN(n))), "1"}, "bip38-ecenc-bad-code", true, "")
+	}
 }
 
 func (r *Runner) privKey() []byte {
@@ -316,7 +496,8 @@ func runC10(r *Runner) string {
 		}
 		r.Do("xkey.deser", []string{sx(s)}, "xkey-deser-arbitrary", len(s) > 0, "")
 	}
+	r.runBip38()
 	return "WIF: all 256 version bytes x both flags with random keys, keys with leading zeros / tiny values, all wrong key lengths 0..70; Base58Check strings over payloads of 0..44 bytes with flag bytes 01/00/02/ff/80/random and WIF-like first bytes, one-edit mutations, arbitrary strings. " +
 		"Extended keys: (private key | valid compressed public key, chain code, fingerprint, depth in {0,1,2,3,255,random}, index in {0,1,2^31-1,2^31,2^32-1,random}, version in {network constants, 0, 1, 2^32-1}) serialized and deserialized; one-edit mutations; 78-byte payloads with the key field altered (prefix 00..07/ff, random x, x >= p, all-zero x, depth forced to 0, length 77/79, single bit flips); fields of non-standard length through the serializer; payload lengths 70..86; arbitrary strings. " +
-		"BIP38 is not covered by this generator. Every case except the odd-length serializer inputs is non-trivial; cases are distinct by their request line."
+		"BIP38 (cost-bounded by scrypt; quick tier about ten derivations per side): keys x passphrases (ASCII, empty, non-ASCII, long) x compressed flag encrypted and decrypted, a wrong passphrase, altered ciphertext with a recomputed checksum, wrong key lengths; every listed flag byte (thorough: all 256) and prefix mutation of a valid string with a recomputed checksum, payload lengths 38/40; EC-multiply intermediate codes with and without lot/sequence from fixed reader bytes, EncryptIntermediateCode with fixed seedb, decryption of the result, out-of-range lot/sequence, short reads, damaged codes. Every case except the odd-length serializer inputs is non-trivial; cases are distinct by their request line."
 }
